@@ -163,6 +163,31 @@ def gen_ruleset(rng, with_markov=None, max_bases=4, max_len=5, name="T"):
     return rs
 
 
+def gen_near_tie_ruleset(rng, name="T"):
+    """Three (or four) variables with two groups each whose probability ratios agree to 9-16 digits WITHOUT being equal
+    (counts such as 2800000004:1400000000, 2800000002:1400000000, 2800000000:1400000000): the rival parents of a
+    pre-terminal are then strictly ordered but "close" - a tolerance in any of the kernel's comparisons changes who adopts it."""
+    rs = {"name": name, "encoding": "utf-8", "uuid": str(_uuid.UUID(int=rng.getrandbits(128))),
+          "files": {}, "grammar": [], "prince": [], "omen": None}
+    kinds = rng.sample(["D1", "O1", "D2", "O2", "D3"], rng.choice([3, 3, 4]))
+    vals = {"D1": DIGITS[1], "D2": DIGITS[2], "D3": DIGITS[3], "O1": OTHER[1], "O2": OTHER[2]}
+    c1 = rng.choice([1400000000, 700000000, 1000000000, 3 * 2 ** 40, 10 ** 15])
+    big = c1 * rng.choice([2, 3, 1])
+    step = rng.choice([1, 2, 3]) if c1 < 10 ** 12 else rng.choice([1, 2, 1000, 10 ** 6])
+    for j, k in enumerate(kinds):
+        c0 = big + step * (len(kinds) - 1 - j)
+        tot = c0 + c1
+        rs["files"][k] = [(vals[k][0], c0 / tot), (vals[k][1], c1 / tot)]
+    structs = ["".join(kinds)]
+    if rng.random() < 0.5:
+        structs.append("".join(rng.sample(kinds, len(kinds))))
+    ps = sorted((rng.choice([0.5, 0.25, 0.3, 0.7]) for _ in structs), reverse=True)
+    rs["grammar"] = list(zip(structs, ps))
+    rs["prince"] = [(k, 1.0 / len(kinds)) for k in kinds]
+    rs["omen_prob"] = [("1", 0.5)]
+    return rs
+
+
 SECTION = {"A": ("BASE_A", "Alpha"), "C": ("CAPITALIZATION", "Capitalization"), "D": ("BASE_D", "Digits"),
            "O": ("BASE_O", "Other"), "K": ("BASE_K", "Keyboard"), "Y": ("BASE_Y", "Years"),
            "X": ("BASE_X", "Context")}
